@@ -22,6 +22,8 @@ type mcWorld struct {
 	Reconnect []int
 	// AfterReply is called in the client's thread after each reply.
 	AfterReply func(client, idx int, o sched.Outcome)
+	// AfterAll is run by the harness thread once every client is done or parked.
+	AfterAll func()
 	// BeforeSend is called in the client's thread right before a request is sent.
 	BeforeSend func(client, idx int)
 	// OnReconnect is called in the client's thread right after it re-dialled.
@@ -81,6 +83,10 @@ func (w *mcWorld) body() {
 			}
 			cl.Close()
 		})
+	}
+	if w.AfterAll != nil {
+		vrt.WaitQuiet()
+		w.AfterAll()
 	}
 }
 
